@@ -153,6 +153,10 @@ def run_one(mod, ctx):
     except BaseException as e:  # unexpected: the operation under test blew up (incl. pyo3 PanicException)
         tb = e.__traceback__
         where = _where(tb)
+        if where == "harness" and not isinstance(e, (AssertionError,)):
+            # no breezy frame at all: a bug in the harness, not an observation about breezy
+            ctx.acc["errors"].append("case %d: %s" % (ctx.index, traceback.format_exc()[-1200:]))
+            return
         ctx.fail("unexpected:%s@%s" % (type(e).__name__, where), repr(e)[:500],
                  {"traceback": traceback.format_exc()[-3000:]})
     finally:
@@ -269,6 +273,7 @@ def parent_main(check_id, tier, seed, nshards=None, only_case=None):
         if not ok:
             return inconclusive(check_id, tier, seed, mod, "cargo-build-failed", t0, {"cargo_log": log[-1500:]})
         env["VERIF_FRESH_RUST"] = ",".join(rust)
+        env["VERIF_RUST_TARGET_USED"] = os.environ.get("VERIF_RUST_TARGET_USED", "")
     if hasattr(mod, "parent_setup"):
         r = mod.parent_setup(tier)
         if r:
